@@ -143,6 +143,43 @@ def run(res):
         res.count("files_inspected", len(files))
 
     wl.run_histories(res, nh, oracle, invalid_rate=0.05)
+
+    # a later session must not be able to store attributes that disagree with the channel properties:
+    # try restarts with "almost the same" parameters; whenever one is accepted, its files are inspected
+    rng = res.rng
+    work = common.scratch_dir()
+    for i in range(10 if res.tier == "quick" else 100):
+        cfg = wl.gen_cfg(rng)
+        chdir = os.path.join(work, "s%d" % i, "ch")
+        ops = [("w", 0, cfg.per_file() + 1, 1), ("c",)]
+        wl.run_impl(cfg, ops, chdir)
+        far = cfg.start + 50 * cfg.per_file()
+        alts = {"unreduced-fraction": dict(n=cfg.n * 2, d=cfg.d * 2, start=far),
+                "unreduced-fraction-3": dict(n=cfg.n * 3, d=cfg.d * 3, start=far),
+                "same": dict(start=far)}
+        for name, ch in alts.items():
+            c2 = wl.Cfg(cfg.n, cfg.d, cfg.sc, cfg.fc, cfg.start, cfg.cont, cfg.comp, cfg.cksum, cfg.kind, cfg.size,
+                        cfg.order, cfg.is_complex, cfg.nsub)
+            for k, v in ch.items():
+                setattr(c2, k, v)
+            if c2.n >= 2 ** 32:
+                continue
+            hist = {"cfg": cfg.as_dict(), "second_session": c2.as_dict(), "kind": name}
+            res.case(("session-attrs", cfg.key(), name))
+            res.count("session-restart:" + name)
+            try:
+                wl.run_impl(c2, [("w", 0, 3, 100), ("c",)], chdir)
+            except Exception:  # noqa  (refused: fine)
+                continue
+            files = wl.dump_files(chdir)
+            with h5py.File(os.path.join(chdir, "drf_properties.h5"), "r") as h:
+                props = {k: norm(v) for k, v in h.attrs.items()}
+            for f in files:
+                for k in PROP_ATTRS:
+                    if norm(f["attrs"].get(k)) != props.get(k):
+                        res.violation("attr-differs-from-properties:" + k, "a data file's embedded attribute differs from drf_properties.h5 (accepted later session)",
+                                      dict(hist, file=f["name"]), props.get(k), norm(f["attrs"].get(k)))
+                        break
     res.assumptions += ["h5py reports rf_data, rf_data_index and attributes faithfully",
                         "multi-session sequence numbers are covered by C11"]
     res.trusted += ["Model/WriterCore.v + Model/IndexCalc.v are hand models, tied by this correspondence"]
